@@ -12,6 +12,9 @@ import time
 import traceback
 
 VERIF = os.path.dirname(os.path.dirname(os.path.abspath(__file__)))
+# evaluation of scratch trees may redirect the output (the registered commands never set this)
+EVDIR = os.environ.get("VERIF_EVIDENCE_DIR") or os.path.join(VERIF, "evidence")
+ACTIVE_CASES = {}      # obligation -> [case labels] of ALL recorded known findings (handed to the native replay)
 NATIVE_PY = "/venv/bin/python"
 
 ASSUMPTION_TEXT = {
@@ -165,9 +168,9 @@ def native_replay(function, obligation, rec, contract_modules, repo, edits=None)
 def _native_replay(function, obligation, rec, contract_modules, repo):
     req = {"repo": repo, "verif": VERIF, "function": function, "obligation": obligation,
            "model": rec.get("model") or {}, "choices": rec.get("choices") or [],
-           "contract_modules": contract_modules}
-    os.makedirs(os.path.join(VERIF, "evidence", "replay"), exist_ok=True)
-    reqpath = os.path.join(VERIF, "evidence", "replay", "_req_%d.json" % os.getpid())
+           "contract_modules": contract_modules, "active_cases": ACTIVE_CASES}
+    os.makedirs(os.path.join(EVDIR, "replay"), exist_ok=True)
+    reqpath = os.path.join(EVDIR, "replay", "_req_%d.json" % os.getpid())
     with open(reqpath, "w") as fh:
         json.dump(req, fh)
     try:
@@ -255,6 +258,10 @@ def run_property(prop, tier, seed):
     active_cases = {}
     for fd in findings:
         active_cases.setdefault(fd["obligation"], []).append(fd["case"])
+    ACTIVE_CASES.clear()
+    for fd in load_known_findings():
+        if fd["case"] not in ACTIVE_CASES.setdefault(fd["obligation"], []):
+            ACTIVE_CASES[fd["obligation"]].append(fd["case"])
     results = verify_functions(prop.FUNCTIONS, prop.CONTRACT_MODULES, timeout_ms, active_cases=active_cases)
     results += run_lemmas(prop, None)
     tags = getattr(prop, "TAGS", (pid,))
@@ -458,7 +465,7 @@ def run_property(prop, tier, seed):
             crashes.append("engine self-check crashed: " + traceback.format_exc().splitlines()[-1])
     # ---- report
     lines = []
-    replay_dir = os.path.join(VERIF, "evidence", "replay")
+    replay_dir = os.path.join(EVDIR, "replay")
     os.makedirs(replay_dir, exist_ok=True)
     finding_by_key = {}
     for fd in findings:
@@ -539,7 +546,7 @@ def run_property(prop, tier, seed):
     ev = {"property_id": pid, "tier": tier, "seed": seed, "level": level, "coverage": coverage,
           "assumptions": trusted + getattr(prop, "EXTRA_ASSUMPTIONS", []), "wall_s": round(wall, 3),
           "violations": len(violations)}
-    with open(os.path.join(VERIF, "evidence", "%s.json" % pid), "w") as fh:
+    with open(os.path.join(EVDIR, "%s.json" % pid), "w") as fh:
         json.dump(ev, fh, indent=1, default=repr)
     for l in lines:
         print(l)
